@@ -4,7 +4,7 @@ from __future__ import annotations
 import ast
 
 from sa import cbor_mini
-from sa.absint import Evaluator, all_effects, flatten_effects
+from sa.absint import Evaluator, record_fields, all_effects, flatten_effects
 from sa.index import AnalysisError
 from sa.teval import ge0_form, lin_key
 from sa.terms import App, Const, Ref, Sym, cases, dict_pairs, list_items, subterms
@@ -257,9 +257,29 @@ def add_envelope_rules(ctx):
         ln = App("len", (rec,))
         size = [a for a in c.args if a != ln]
         want_g = ge0_form(App(">", (ln, size[0]))) if size and ln in c.args else None
+        # the slot may also be a NamedTuple / dataclass returned by the lookup: the field that holds entry['size']
+        size_fields = set()
+        fs_ = repo.find_func(IMG, "EnvelopeStorage._find_slot")
+        for x_ in (ev.outcomes(fs_) if fs_ else ()):
+            if x_.kind == "return" and x_.value is not None:
+                for _g, alt_ in cases(x_.value):
+                    rec_ = record_fields(alt_)
+                    for fld_, t_ in (rec_ or {}).items():
+                        if isinstance(t_, App) and t_.op == "idx" and t_.args[1] == Const("size"):
+                            size_fields.add("attr:" + fld_)
+
+        def is_size(t_):
+            if not isinstance(t_, App):
+                return False
+            if (t_.op == "idx" and t_.args[1] in (Const(1), Const("size"))) or (t_.op == "unpack" and t_.args[1:] == (Const(1), Const(2))) \
+                    or t_.op in size_fields:
+                return True
+            if t_.op == "phi":  # a followed lookup: every alternative that is a slot at all is that entry's size
+                alts_ = [a_ for _g, a_ in cases(t_) if a_ != Const(None) and not (isinstance(a_, App) and a_.op in ("raises", "unpack", "cmeth", "idx") and a_.args and a_.args[0] == Const(None))]
+                return bool(alts_) and all(is_size(a_) for a_ in alts_)
+            return False
         R.check("C07-D3a reject before commit", g is not None and want_g is not None and lin_key(g) == lin_key(want_g)
-                and isinstance(size[0], App) and ((size[0].op == "idx" and size[0].args[1] in (Const(1), Const("size")))
-                                                  or (size[0].op == "unpack" and size[0].args[1:] == (Const(1), Const(2)))),
+                and is_size(size[0]),
                 "rejected exactly when the record is larger than the slot size", mod=fi.module, node=tl.node, function=fq,
                 expected="len(envelope_bytes) > slot size", found=repr(c)[:200])
     dup = kinds.get("duplicate role")
@@ -280,6 +300,8 @@ def add_envelope_rules(ctx):
         # every alternative of the result that is a slot is (offset, size) of ONE entry, selected by that entry's role
         for g_, alt in cases(x.value):
             li = list_items(alt)
+            if not li and record_fields(alt) is not None:
+                li = list(record_fields(alt).values())  # a NamedTuple (offset, size)
             if not li:
                 if alt != Const(None):
                     bad_alt.append(repr(alt)[:80])
